@@ -15,7 +15,7 @@ def run(ctx):
     base = int(ctx.seed) if str(ctx.seed).lstrip("-").isdigit() else 1
     # every run is a fresh server instance (empty configuration first, then progressively populated); several
     # shorter runs instead of one long one: independent histories, and a blocked transaction log stays contained
-    runs = [(base, 700, 0, True)] + ([(base + 1000 * i, 900, 0, False) for i in range(1, 6)] if big else [])
+    runs = [(base, 700, 0, True)] + ([(base + 1000 * i, 900, 0, False) for i in range(1, 5)] if big else [])
     runs.append((base + 7919, 1200 if big else 200, 2, False))     # GNMI_SET_SIZE_LIMIT=2: the limit checks of Set
     res = None
     all_lines = []
@@ -76,7 +76,7 @@ def fuzz(ctx, res):
     if os.path.realpath(vlib.REPO) != "/repo":
         extra = ["-modfile=" + os.path.join(ctx.work, "alt.mod")]
     total = 0
-    for target, secs in (("FuzzSet", 120), ("FuzzGet", 90), ("FuzzLeafSelection", 45)):
+    for target, secs in (("FuzzSet", 100), ("FuzzGet", 80), ("FuzzLeafSelection", 40)):
         rc, out, dt = vlib.sh(["go", "test", "-tags", "verif"] + extra + ["-run", "^$", "-fuzz", "^" + target + "$", "-fuzztime", "%ds" % secs, "./cmd/c12"], cwd=h, timeout=secs + 600)
         execs = 0
         for ln in out.split("\n"):
